@@ -205,6 +205,16 @@ def check_write(prop, tier, seed):
             plans.append(("memkv", comp, "simulate", nsim // 4, 16, []))
             plans.append(("badger", comp, "simulate", nsim // 16, 4, []))
             plans.append(("tikv", dict(comp, ConflictCarriesValue=False, SnapAtTs=True), "simulate", nsim // 16, 8, []))
+            # creates racing over a tombstoned index that the compactor takes away, with one lookup of the engine failing (rerr):
+            # "a condition is reported failed only if the key really differed" also when the re-read after a lost compare fails
+            crf = dict(BASE_CONSTS, Keys={1}, InitStates={"deleted", "none", "recreated"}, FixedOps="<- MCCreateOnly", ExpSet={0}, Compactors={"k1"},
+                       CompactRevs={0, 2, 4}, MaxCompacts=1, CompactDetail=True, FaultKinds={"rerr"}, FaultBudget=1, ConflictCarriesValue=False, SnapAtTs=True)
+            r = run_mc(work, crf, MC_INV[prop] + ["StaysWritable"], name="mccrf")
+            cov["states"] += r["distinct"]; cov["transitions"] += r["states"]
+            cov["mc_runs"].append(dict(config="2 racing creates, a stepwise compactor, one failing lookup (TiKV-style conflicts)", distinct_states=r["distinct"],
+                                       states_generated=r["states"], invariants=MC_INV[prop] + ["StaysWritable"]))
+            plans.append(("tikv", crf, "simulate", nsim // 4, 8, []))
+            plans.append(("memkv", dict(crf, ConflictCarriesValue=True, SnapAtTs=False), "simulate", nsim // 8, 8, []))
         if prop == "C02":
             # the revision counter: tso.Commit in two steps, so that a Deal can land between its load and its compare-and-swap
             tso = dict(BASE_CONSTS, SeqDetail=True, TsoDetail=True, InitStates={"none", "live"}, ExpSet={0, 1, 4})
